@@ -254,28 +254,34 @@ inductive Verdict where
   | noLeader
 deriving Inhabited, Repr, DecidableEq
 
+/-- one iteration of the loop over the components in `ComputeLeftRecursives`: `v` is the vertex whose component is
+    handled now unless it was handled before (`done`) -/
+def lrStep (g : Graph) (st : AGrammar × Verdict × List String) (v : String) : AGrammar × Verdict × List String :=
+  let (G, verdict, done) := st
+  if done.contains v then st else
+  let scc := sccOf g v
+  let done' := union done scc
+  if scc.length > 1 then
+    let G1 := scc.foldl (fun G n => updateRule G n (fun r => { r with leftRecursive := true })) G
+    match findLeader g scc with
+    | none => (G1, .noLeader, done')
+    | some l =>
+      let v' := match verdict with | .noLeader => Verdict.noLeader | _ => .ok true
+      (updateRule G1 l (fun r => { r with leader := true }), v', done')
+  else if hasSelfLoop g v then
+    let v' := match verdict with | .noLeader => Verdict.noLeader | _ => .ok true
+    (updateRule G v (fun r => { r with leftRecursive := true, leader := true }), v', done')
+  else (G, verdict, done')
+
+/-- `ComputeLeftRecursives` on a given first graph, the vertices enumerated in a given order (Go: map order) -/
+def computeLRWith (g : Graph) (verts : List String) (G : AGrammar) : AGrammar × Verdict :=
+  let r := verts.foldl (lrStep g) (G, .ok false, [])
+  (r.1, r.2.1)
+
 /-- `ComputeLeftRecursives`: marks `leftRecursive` / `leader`; `none`-leader = ErrNoLeader -/
 def computeLeftRecursives (cfg : Cfg) (G : AGrammar) : AGrammar × Verdict :=
   let g := firstGraph cfg G
-  let verts := g.map (·.1)
-  let step := fun (st : AGrammar × Verdict × List String) (v : String) =>
-    let (G, verdict, done) := st
-    if done.contains v then st else
-    let scc := sccOf g v
-    let done' := union done scc
-    if scc.length > 1 then
-      let G1 := scc.foldl (fun G n => updateRule G n (fun r => { r with leftRecursive := true })) G
-      match findLeader g scc with
-      | none => (G1, .noLeader, done')
-      | some l =>
-        let v' := match verdict with | .noLeader => Verdict.noLeader | _ => .ok true
-        (updateRule G1 l (fun r => { r with leader := true }), v', done')
-    else if hasSelfLoop g v then
-      let v' := match verdict with | .noLeader => Verdict.noLeader | _ => .ok true
-      (updateRule G v (fun r => { r with leftRecursive := true, leader := true }), v', done')
-    else (G, verdict, done')
-  let (G', verdict, _) := verts.foldl step (G, .ok false, [])
-  (G', verdict)
+  computeLRWith g (g.map (·.1)) G
 
 /-- `PrepareGrammar` with an explicit visiting order -/
 def prepare (cfg : Cfg) (G : AGrammar) (order : List String) : Option (AGrammar × Verdict) :=
